@@ -1,4 +1,11 @@
 import WebrtcVerif.Base.Wire
+import WebrtcVerif.Drv.C03
+import WebrtcVerif.Drv.C02
+import WebrtcVerif.Drv.C01
+import WebrtcVerif.Drv.C04
+import WebrtcVerif.Drv.C21
+import WebrtcVerif.Drv.C11
+import WebrtcVerif.Drv.C33
 import WebrtcVerif.Drv.C31
 import WebrtcVerif.Drv.C12
 import WebrtcVerif.Drv.C20
@@ -58,6 +65,13 @@ def runLine (toks : List String) : String :=
   | "C20" :: rest => Drv.C20.run rest
   | "C12" :: rest => Drv.C12.run rest
   | "C31" :: rest => Drv.C31.run rest
+  | "C33" :: rest => Drv.C33.run rest
+  | "C11" :: rest => Drv.C11.run rest
+  | "C21" :: rest => Drv.C21.run rest
+  | "C04" :: rest => Drv.C04.run rest
+  | "C01" :: rest => Drv.C01.run rest
+  | "C02" :: rest => Drv.C02.run rest
+  | "C03" :: rest => Drv.C03.run rest
   | _ => "bad-op"
 
 def judgeLine (toks : List String) : String :=
@@ -89,6 +103,13 @@ def judgeLine (toks : List String) : String :=
   | "C20" :: rest => Drv.C20.judge rest out
   | "C12" :: rest => Drv.C12.judge rest out
   | "C31" :: rest => Drv.C31.judge rest out
+  | "C33" :: rest => Drv.C33.judge rest out
+  | "C11" :: rest => Drv.C11.judge rest out
+  | "C21" :: rest => Drv.C21.judge rest out
+  | "C04" :: rest => Drv.C04.judge rest out
+  | "C01" :: rest => Drv.C01.judge rest out
+  | "C02" :: rest => Drv.C02.judge rest out
+  | "C03" :: rest => Drv.C03.judge rest out
   | _ => "bad-judge"
 
 partial def loop (h : IO.FS.Stream) (out : IO.FS.Stream) (f : List String → String) : IO Unit := do
